@@ -229,7 +229,13 @@ def run_sweep(T, tier, seed, optsets, name='core'):
                  'sn': ['noastSwitchSafe'], 'isn': ['inlineNoastSwitchSafe']}.get(o, [])
         c = tc.setdefault(o or 'd', {'programs': 0, 'hypotheses_evaluated': 0, 'covered_by_theorem': 0})
         c['programs'] += 1
-        if all(k in h for k in extra):
+        if 'theoremApplies' in h:
+            # the Bool hypothesis of the summary theorem all_options_same_verdict, evaluated by the driver
+            c['hypotheses_evaluated'] += 1
+            c['covered_by_theorem'] += 1 if h['theoremApplies'] else 0
+            if bool(h['theoremApplies']) != bool(base and all(h.get(k) for k in extra if k in h)) and all(k in h for k in extra):
+                c['inconsistent'] = c.get('inconsistent', 0) + 1
+        elif all(k in h for k in extra):
             c['hypotheses_evaluated'] += 1
             c['covered_by_theorem'] += 1 if base and all(h.get(k) for k in extra) else 0
     stats['theorem_coverage'] = tc
